@@ -27,6 +27,8 @@ func C10(c *Ctx) {
 	r.Rule("C10/R3", "participant addressing inside the FSM (status gates and write-back under request.ParticipantId)", 30)
 	r.Rule("C10/R4", "airgapped requests carry the machine's own participant id", 6)
 	r.Rule("C10/R5", "verification cannot stay switched off after reinit", 2)
+	r.Rule("C10/R6", "step binding by payload: each DKG contribution request is valid only with its own step's non-empty field (the event name is not signed, F-C10-2, so this is what keeps a message of another step from being accepted as this step's)", 4)
+	nonEmptyContributionAs(c, "C10/R6")
 	c10SenderBinding(c)
 	c10Envelope(c)
 	ms := c.Machines("C10/A1")
